@@ -5,8 +5,9 @@ M = "github.com/metal-toolbox/audito-maldito"
 SSHD = M + "/processors/sshd"
 out = os.path.join(os.path.dirname(os.path.abspath(__file__)), "..", "plans")
 
-def run(name, pkg, fn, quick, thorough=None, reach=None, bounds=""):
+def run(name, pkg, fn, quick, thorough=None, reach=None, bounds="", **kw):
     r = {"name": name, "pkg": pkg, "fn": fn, "quick": quick, "bounds": bounds}
+    r.update(kw)
     if thorough is not None:
         r["thorough"] = thorough
     if reach:
@@ -85,13 +86,16 @@ trk_assume = ["PIDs are two-digit decimal strings (symbolic), session ids one or
               "stubs: zap logging, uuid.New, time.Now (symbolic non-decreasing clock); dependency code below AuditdEvent (parser/reassembler/coalescer) is not part of this check",
               "map iteration order = insertion order (each PID matches at most one session, so RemoteLogin's early exit does not depend on it)"]
 trk_out = ["histories longer than K operations; more than S sessions / L logins in flight", "the path through the real parser/reassembler and the built daemon"]
-def trk(prop, pre, qp, tp, reach):
+def trk(prop, pre, qp, tp, reach, extra=[]):
     write(prop, [run("history", TRK, "VerifTrackerHistory", {"params": qp, "max_steps": 20000000}, {"params": tp, "max_steps": 50000000, "cross_check": True}, reach=reach,
-                     bounds="K operations over S sessions and L logins: %s (quick) / %s (thorough)" % (json.dumps(qp), json.dumps(tp)))],
+                     bounds="K operations over S sessions and L logins: %s (quick) / %s (thorough)" % (json.dumps(qp), json.dumps(tp)))] + extra,
           trk_assume, trk_out, site_prefix=pre)
 trk("C01", "c01.", {"K": 5, "S": 2, "L": 2}, {"K": 6, "S": 3, "L": 2}, ["trk.emitted", "trk.flush-many", "trk.history-end"])
 trk("C02", "c02.", {"K": 5, "S": 2, "L": 2}, {"K": 6, "S": 3, "L": 2}, ["trk.emitted", "trk.flush-many", "trk.history-end"])
-trk("C04", "c04.", {"K": 3, "S": 2, "L": 1, "WILD": 1}, {"K": 4, "S": 2, "L": 1, "WILD": 1}, ["trk.emitted", "trk.history-end"])
+trk("C04", "c04.", {"K": 3, "S": 2, "L": 1, "WILD": 1}, {"K": 4, "S": 2, "L": 1, "WILD": 1}, ["trk.emitted", "trk.history-end"],
+    extra=[run("after-end-with-pid-reuse", TRK, "VerifC09Reuse", {"params": {"K": 7}, "sym_map_order": True, "max_steps": 20000000}, {"params": {"K": 9}, "sym_map_order": True, "max_steps": 50000000},
+               reach=["c09.second-login", "c09.record-held-after-disposal"],
+               bounds="C09's histories (two sessions opened by the same symbolic PID one after the other, each login at any position, stray late records): whatever is emitted for a session after its credential-disposal record carries that session's own identity")])
 
 # ---- C11: arbitrary lines
 kw = ["Accepted publickey", "Accepted password", "Certificate invalid", "Invalid user", "User ", "ROOT LOGIN REFUSED FROM",
@@ -107,8 +111,8 @@ def c11runs(NQ, NT, TQ, TT):
     return runs
 c11_assume = ["no write fault is injected here (C05 covers it)", "stubs: zap, prometheus, json.Marshal, uuid, time.Now",
               "regex classes are checked per instruction to be uniform over non-ASCII runes, which makes the byte-level encoding exact for invalid UTF-8 as well"]
-c11ing = [run("ingester-line", M + "/ingesters/syslog", "VerifC11IngesterLine", q({"N": 8}, ascii7=False), t({"N": 12}), reach=["c11.ingester.processed"],
-              bounds="syslog ingester Process/ParseSyslogMessage on a line of any bytes but newline, 0..N: the PID token and message handed to the processor are verbatim substrings of the line (composes with the processor-level runs: substring-of is transitive)")]
+c11ing = [run("ingester-line", M + "/ingesters/syslog", "VerifC11IngesterLine", q({"N": 8}), t({"N": 12}), reach=["c11.ingester.processed"],
+              bounds="syslog ingester Process/ParseSyslogMessage on a line of 0..N bytes but newline (quick: 7-bit bytes, thorough: any bytes): the PID token and message handed to the processor are verbatim substrings of the line (composes with the processor-level runs: substring-of is transitive)")]
 write("C11", c11runs(24, 48, 28, 56) + c11ing, c11_assume, ["lines longer than the bounds ('very long lines')"], site_prefix="c11.")
 
 # ---- C05
@@ -126,7 +130,7 @@ write("C05", c05, ["failure / unrecognised lines never forward a login: asserted
       ["PID tokens longer than PIDLEN digits", "field values longer than the stated maxima"], site_prefix="c05.")
 
 # ---- C14
-write("C14", [run("render", TRK, "VerifC14Render", {"params": {"R": 8}}, {"params": {"R": 12}, "cross_check": True}, reach=["c14.rendered"],
+write("C14", [run("render", TRK, "VerifC14Render", {"params": {"R": 8}}, {"params": {"R": 12}, "cross_check": True}, reach=["c14.rendered"], no_init_extra=True,
                   bounds="result string any bytes 0..R; action/how 0..6, object fields 0..4, 0..2 process args of 0..4 bytes; 0..2 extra subject entries; login before or after the LOGIN record; two events per session"),
               run("through-the-reassembler-callback", M + "/processors/auditd", "VerifC14Callback", {"params": {}}, {"params": {}}, reach=["c14.cb.group-delivered"],
                   bounds="real reassemblerCB.ReassemblyComplete and session tracker; one SYSCALL(+EXECVE)+CWD record group parsed by the real auparse; success=yes/no; no EXECVE record or one with 1..3 quoted arguments")],
